@@ -81,7 +81,9 @@ class Rule_CV05(BaseRule):
         after_op_list = siblings.select(start_seg=context.segment)
         next_code = after_op_list.first(sp.is_code())
 
-        if not next_code.all(sp.is_type("null_literal")):
+        # NOTE: `.all()` is also true of an empty selection (e.g. when the rest
+        # of the line is unparsable and nothing follows the operator here).
+        if not next_code or not next_code.all(sp.is_type("null_literal")):
             return None
 
         sub_seg = next_code.get()
